@@ -116,7 +116,7 @@ def _chain_shard(cfg_w):
 
 def run(tier):
     acc = kcommon.run_configs(__name__, tier)
-    small = kcommon.chain_configs(tier)
+    small = kcommon.chain_configs(tier, deep=True)
     acc.merge(core.pmap(__name__, "_chain_shard", [c.to_witness() for c in small]))
     return acc
 
